@@ -38,6 +38,7 @@ package adaptive
 //@ func (*lookback).add
 //@   prop C41
 //@   nopanic
+//@   modifies l.head, l.total, l.buf[*]
 //@   requires lbOK(l) && t.UnixNano() >= 0 && Z(binOf(l, t))+Z(l.bins) < 9223372036854775807
 //@   assert at call advance#1 arg0 == l && arg1 == t
 //@   assert at return 1 pos == binOf(l, t) && Z(l.head) - Z(pos) >= Z(l.bins)
@@ -47,6 +48,7 @@ package adaptive
 //@ func (*lookback).sum
 //@   prop C41
 //@   nopanic
+//@   modifies l.head, l.total, l.buf[*]
 //@   requires lbOK(l) && t.UnixNano() >= 0 && Z(binOf(l, t))+Z(l.bins) < 9223372036854775807
 //@   assert at call advance#1 arg0 == l && arg1 == t
 //@   ensures result == l.total && l.head == max(old(l.head), binOf(l, t))
